@@ -42,7 +42,7 @@ ASSUMPTIONS = [
 
 NETWORK_FAULTS = {"duplicate", "delay", "drop", "late_before_next", "replay_earlier", "replay_create"}
 MANIPS = ["flip_identifier", "flip_key", "flip_auth", "flip_candidates", "flip_cid", "substitute", "swap_other",
-          "replay_earlier", "duplicate", "delay", "drop", "late_before_next"]
+          "replay_earlier", "duplicate", "delay", "drop", "late_before_next", "flip_candidates_then_original"]
 
 
 def parse_created(msg: bytes) -> dict | None:
@@ -159,6 +159,16 @@ class Run:
                     if not cd["rest"]:
                         return None
                     data[base + cd["rest_off"] + m["arg"] % len(cd["rest"])] ^= bit
+                elif kind == "flip_candidates_then_original":
+                    # the part of the answer the authenticator does not cover is damaged in a first copy; the unaltered
+                    # answer follows right behind it
+                    if not cd["rest"]:
+                        return None
+                    data[base + cd["rest_off"] + m["arg"] % len(cd["rest"])] ^= bit
+                    self.applied.append((kind, n))
+                    w.net.inject(fl.src, fl.dst, bytes(data), note="candidates flipped")
+                    self.stash.append(bytes(fl.data))
+                    return None
                 elif kind == "flip_cid":
                     data[23 + m["arg"] % 4] ^= bit
                 elif kind == "substitute":
